@@ -26,8 +26,9 @@ Trusted base.
 **Per-call refinement** (floats): `trace` is NOT the model's run from `dyn0` but, call by call, the model's outcome from
 the state the IMPLEMENTATION's previous entry shows (`refine`).  An outcome *agrees* with the implementation's entry when
 everything discrete is equal (result, world, receiving lists — whose numbers are copies, hence equal exactly —, reward
-dict), every message is within `BC.bound = 2⁻⁴⁰` of the model's exact number, and every observation slot lists what the
-model says it carries; an agreeing entry is echoed verbatim, the first disagreeing one is replaced by the model's own
+dict), every message is within `BC.bound = 2⁻⁴⁰` of the model's exact number, every observation slot lists what the
+model says it carries, and an answer of `get_all_done` is the exact one or lies in the judge's grey zone
+(`BC.doneAccepted`); an agreeing entry is echoed verbatim, the first disagreeing one is replaced by the model's own
 outcome and ends the reply, so that the harness's comparison of `trace` with what it sent is exactly "agrees at every
 call".  `specOnModel` is `BC.specBC` on the model's own exact run from `dyn0` (`broadcast_hist`), `specOnImpl` on the
 implementation's trace.
@@ -188,8 +189,17 @@ def resAgree (m i : BRes) : Bool :=
      | _, _ => false)
   | a, b => a == b
 
-def agree (m i : BEntry) : Bool :=
-  resAgree m.res i.res &&
+/-- `get_all_done`: an answer inside the judge's grey zone agrees too -/
+def doneAgree (cfg : Cfg) (j : BEntry) (op : BOp) (i : BRes) : Bool :=
+  match op with
+  | .allDone =>
+    (match (bcasters cfg j.w.n).mapM (fun b => j.msgs.getD b none) with
+     | some ms => doneAccepted cfg ms i
+     | none => false)
+  | _ => false
+
+def agree (cfg : Cfg) (j : BEntry) (op : BOp) (m i : BEntry) : Bool :=
+  (resAgree m.res i.res || doneAgree cfg j op i.res) &&
   (m.res.isErr || ((m.w == i.w) && msgsClose m.msgs i.msgs && (m.recv == i.recv) && (m.rewards == i.rewards)))
 
 /-- call by call from the implementation's own previous dump -/
@@ -198,7 +208,7 @@ def refine (cfg : Cfg) : BEntry → List BOp → List BEntry → List BEntry
   | _, _ :: _, [] => []
   | j, op :: ops, ei :: es =>
     let em := (BC.runOp cfg j.toSt op).1
-    if agree em ei then
+    if agree cfg j op em ei then
       if em.res.isErr then [ei] else ei :: refine cfg ei ops es
     else [em]
 
